@@ -113,3 +113,15 @@ def count_edges(path):
             if line.startswith('"{\\"s\\"'):
                 n += 1
     return n
+
+
+def action_coverage(out_path):
+    """Per-action counts of a run with -coverage 1: {action: [distinct, generated]} (last report in the output)."""
+    import re
+    acts = {}
+    pat = re.compile(r"^<(\w+) line \d+, col \d+ to line \d+, col \d+ of module (\w+)>: (\d+):(\d+)\s*$")
+    for line in open(out_path, errors="replace"):
+        m = pat.match(line)
+        if m and m.group(1) != "Init":
+            acts[m.group(1)] = [int(m.group(3)), int(m.group(4))]
+    return acts
